@@ -98,6 +98,7 @@ type Ctx struct {
 	ufs       map[string]bool
 	constGlob  map[string]string
 	heapTypes  map[string]types.Type
+	stablePrev map[string]string // "<key>|<epoch>" -> heap term before the havoc that opened the epoch
 	epochAlloc map[int]string
 	posQuants []*posQuant
 	idxTerms  []string
@@ -396,6 +397,20 @@ func (c *Ctx) heapSym(st *State, key string) string {
 	if bound, ok := c.epochAlloc[st.epoch]; ok {
 		c.refAxioms(s, key, bound)
 	}
+	if prev, ok := c.stablePrev[ik]; ok {
+		if n, isN := c.heapTypes[key].(*types.Named); isN && n.Obj().Pkg() != nil {
+			info := c.sorts.info(n)
+			for _, sf := range lookupStable(n.Obj().Pkg().Path() + "." + n.Obj().Name()) {
+				for i, fname := range info.fnames {
+					if fname == sf.Field {
+						acc := info.fields[i]
+						c.emit(fmt.Sprintf("(assert (forall ((r!st Int)) (! (= (%s (select %s r!st)) (%s (select %s r!st))) :pattern ((select %s r!st)))))", acc, s, acc, prev, s))
+						c.trusted[fmt.Sprintf("stable field %s.%s: keeps its value across calls with unknown effects (write sites audited by the effect checker)", sf.Type, sf.Field)] = true
+					}
+				}
+			}
+		}
+	}
 	return s
 }
 
@@ -489,8 +504,24 @@ func (c *Ctx) havocAll(st *State, keepCells bool) {
 			st.heaps[k.pr.key] = c.def("heap", c.heapSorts[k.pr.key], fmt.Sprintf("(store %s %s %s)", c.heapSym(st, k.pr.key), k.pr.ref, k.val))
 		}
 	}()
+	// fields declared stable keep their values across the unknown code
+	prevStable := map[string]string{}
+	for k, t := range c.heapTypes {
+		if !strings.HasPrefix(k, "H:") {
+			continue
+		}
+		if n, ok := t.(*types.Named); ok && n.Obj().Pkg() != nil && len(lookupStable(n.Obj().Pkg().Path()+"."+n.Obj().Name())) > 0 {
+			prevStable[k] = c.heapSym(st, k)
+		}
+	}
 	c.frames++
 	st.epoch = 1000 + c.frames*7 + c.n
+	if c.stablePrev == nil {
+		c.stablePrev = map[string]string{}
+	}
+	for k, prev := range prevStable {
+		c.stablePrev[fmt.Sprintf("%s|%d", k, st.epoch)] = prev
+	}
 	for k := range st.heaps {
 		if keepCells && strings.HasPrefix(k, "L:") {
 			continue
@@ -681,6 +712,14 @@ func (c *Ctx) assumeRange(guard string, t types.Type, term string, depth int) {
 		}
 	case *types.Slice:
 		c.assume(guard, c.sliceWF(term))
+		// a slice that exists fits the amd64 user address space (2^47 bytes)
+		if es := elemSize(u.Elem()); es >= 1 && es <= 1<<20 {
+			if c.mode == BV {
+				c.assume(guard, fmt.Sprintf("(bvsle (bvmul (s_cap %s) %s) #x0000800000000000)", term, bvLit(uint64(es))))
+			} else {
+				c.assume(guard, fmt.Sprintf("(<= (* (s_cap %s) %d) 140737488355328)", term, es))
+			}
+		}
 	case *types.Pointer:
 		c.assume(guard, fmt.Sprintf("(>= %s 0)", term))
 	}
